@@ -16,6 +16,7 @@ import (
 	"github.com/hashicorp/hcl-lang/schema"
 	"github.com/hashicorp/hcl/v2"
 	"github.com/hashicorp/hcl/v2/hclsyntax"
+	"github.com/hashicorp/hcl/v2/json"
 	"github.com/zclconf/go-cty/cty"
 	"github.com/zclconf/go-cty/cty/convert"
 	"github.com/zclconf/go-cty/cty/function"
@@ -275,6 +276,12 @@ func (fe functionExpr) SemanticTokens(ctx context.Context) []lang.SemanticToken 
 }
 
 func (fe functionExpr) ReferenceOrigins(ctx context.Context) reference.Origins {
+	if json.IsJSONExpression(fe.expr) {
+		// A call is written inside a template in JSON ("${foo(var.bar)}"),
+		// a string which merely reads like a call is just a string.
+		return reference.Origins{}
+	}
+
 	funcExpr, diags := hcl.ExprCall(fe.expr)
 	if diags.HasErrors() {
 		return reference.Origins{}
